@@ -195,7 +195,7 @@ def check_shapes(job):
                 continue
             res["unsupported"].append((sh.key(), "result %r" % (rv,)))
         for ob in ip.obligations:
-            cond = "false" if ob.cond is False else "(not %s)" % bsx(ob.cond)
+            cond = "true" if ob.cond is False else "(not %s)" % bsx(ob.cond)
             r, vals = solver.query(ob.ctx.script([cond]), names)
             key = "%s:%s %s" % (ob.fn.split("::")[-1], ob.bb, ob.msg)
             if r == "unsat":
